@@ -168,14 +168,22 @@ fn reader_b(bytes: &[u8]) -> Zonefile {
     z.allow_invalid()
 }
 
-/// "12:3: message: context" -> (12, 3, "message")
+/// The reader's error type exposes its position only through `Display`.
+/// The property asks for "an error with a position", not for a text layout,
+/// so the first two unsigned numbers of the text are taken as (line, column)
+/// whatever surrounds them ("12:3: message", "line 12, column 3: message", ...);
+/// the third field is the first clause of what follows (statistics only).
 fn parse_pos(s: &str) -> Option<(u64, u64, &str)> {
-    let (l, rest) = s.split_once(':')?;
-    let (c, rest) = rest.split_once(':')?;
-    let line = l.parse::<u64>().ok()?;
-    let col = c.parse::<u64>().ok()?;
-    let msg = rest.trim_start();
-    let msg = msg.split(": ").next().unwrap_or(msg);
+    fn number(s: &str, from: usize) -> Option<(u64, usize)> {
+        let b = s.as_bytes();
+        let start = (from..b.len()).find(|&i| b[i].is_ascii_digit())?;
+        let end = (start..b.len()).find(|&i| !b[i].is_ascii_digit()).unwrap_or(b.len());
+        Some((s[start..end].parse::<u64>().ok()?, end))
+    }
+    let (line, p) = number(s, 0)?;
+    let (col, p) = number(s, p)?;
+    let rest = s[p..].trim_start_matches(|c: char| c == ':' || c == ',' || c == ')' || c.is_whitespace());
+    let msg = rest.split(": ").next().unwrap_or(rest);
     Some((line, col, msg))
 }
 
@@ -309,15 +317,18 @@ fn examine(bytes: &[u8], with_parsed: bool) -> Exam {
                 viol = Some((format!("panic|{}", norm_panic(&p)), format!("next_entry loop (load + allow_invalid) panicked: {p}")));
             }
             Ok(b) => {
-                let class_err = matches!(&a.end, End::Err(s) if parse_pos(s).map(|p| p.2) == Some("different class"));
-                if class_err {
-                    if b.entries.len() < a.entries.len() || b.entries[..a.entries.len()] != a.entries[..] {
-                        viol = Some((
-                            "reader-disagree|allow-invalid-prefix".into(),
-                            "allow_invalid reader does not start with the entries of the strict reader".into(),
-                        ));
-                    }
-                } else if a != b {
+                // `allow_invalid` makes the reader tolerate entries the strict reader refuses
+                // (a record of another class). Which error that is can only be told from the
+                // wording of the message, which the property leaves open; what it does imply is
+                // that a lenient reader that differs from the strict one got FURTHER: the strict
+                // reader ended in an error and its entries are a prefix of the lenient reader's.
+                let lenient_got_further = matches!(&a.end, End::Err(_)) && a != b && b.entries.len() >= a.entries.len() && b.entries[..a.entries.len()] == a.entries[..];
+                if matches!(&a.end, End::Err(_)) && a != b && !lenient_got_further {
+                    viol = Some((
+                        "reader-disagree|allow-invalid-prefix".into(),
+                        "allow_invalid reader does not start with the entries of the strict reader".into(),
+                    ));
+                } else if a != b && !lenient_got_further {
                     viol = Some((
                         "reader-disagree|same-bytes".into(),
                         format!("reader built with From<&[u8]> ended {:?} after {} entries; reader built with load()+allow_invalid ended {:?} after {} entries, no class conflict involved", a.end, a.entries.len(), b.end, b.entries.len()),
